@@ -109,6 +109,57 @@ fn is_read_ev(e: &Ev) -> bool {
     matches!(e, Ev::ReadCr { .. } | Ev::ReadDr { .. } | Ev::Rdmsr { .. } | Ev::Xgetbv { .. } | Ev::ReadSreg { .. } | Ev::RdBase { .. } | Ev::Pushfq { .. })
 }
 
+/// Which architectural register an access event refers to (family, index), and the value it carries.
+fn reg_of(e: &Ev) -> Option<((u8, u64), u64)> {
+    Some(match e {
+        Ev::ReadCr { cr, val } | Ev::WriteCr { cr, val } => ((0, *cr as u64), *val),
+        Ev::ReadDr { dr, val } | Ev::WriteDr { dr, val } => ((1, *dr as u64), *val),
+        Ev::Rdmsr { idx, val } | Ev::Wrmsr { idx, val } => ((2, *idx as u64), *val),
+        Ev::Xgetbv { ecx, val } | Ev::Xsetbv { ecx, val } => ((3, *ecx as u64), *val),
+        Ev::Pushfq { val } | Ev::Popfq { val } => ((4, 0), *val),
+        Ev::ReadSreg { sreg, val } | Ev::WriteSreg { sreg, val } => ((5, *sreg as u64), *val as u64),
+        Ev::RdBase { gs, val } | Ev::WrBase { gs, val } => ((6, *gs as u64), *val),
+        _ => return None,
+    })
+}
+
+/// Does the observed instruction trace do what the reference trace does?  The property names
+/// effects (which register, which value ends up in it), not the instruction stream: reads of a
+/// register the reference touches are free (before, after, repeated - a read-back to verify, say),
+/// and a write that would store the value the register was just read to hold may be left out.
+/// Everything else - a write with another value, an access to another register, any other
+/// instruction, the order of the writes - has to match.
+fn traces_agree(obs: &[Ev], want: &[Ev]) -> bool {
+    let touched: Vec<(u8, u64)> = want.iter().filter_map(|e| reg_of(e).map(|x| x.0)).collect();
+    let free_read = |e: &Ev| is_read_ev(e) && reg_of(e).map_or(false, |x| touched.contains(&x.0));
+    // reference without its free reads, each write marked optional when the register is known
+    // (from an earlier event of the reference) to hold that value already
+    let mut known: Vec<((u8, u64), u64)> = vec![];
+    let mut want2: Vec<(&Ev, bool)> = vec![];
+    for e in want {
+        if let Some((id, val)) = reg_of(e) {
+            let holds = known.iter().rev().find(|k| k.0 == id).map(|k| k.1);
+            if !is_read_ev(e) {
+                want2.push((e, holds == Some(val)));
+            }
+            known.push((id, val));
+        } else {
+            want2.push((e, false));
+        }
+    }
+    let mut it = obs.iter().filter(|e| !free_read(e)).peekable();
+    for (e, optional) in want2 {
+        match it.peek() {
+            Some(o) if *o == e => {
+                it.next();
+            }
+            _ if optional => {}
+            _ => return false,
+        }
+    }
+    it.next().is_none()
+}
+
 /// XSETBV #GP rules (SDM vol. 2 XSETBV): XCR0[0] must be 1; AVX needs SSE; BNDREG and BNDCSR
 /// together; the three AVX-512 components together and only with AVX.
 fn xcr0_ok(v: u64) -> bool {
@@ -537,10 +588,8 @@ impl<'a> Cx<'a> {
             // write may read once or twice): consecutive identical reads count as one
             let _ = exp.collapse;
             core.dedup_by(|b, a| is_read_ev(a) && a == b);
-            let mut want = exp.evs.clone();
-            want.dedup_by(|b, a| is_read_ev(a) && a == b);
-            if core != want {
-                return Err(self.fail("trace", format!("executed {:x?}, the reference expects exactly {:x?}", out.trace, exp.evs)));
+            if !traces_agree(&core, &exp.evs) {
+                return Err(self.fail("trace", format!("executed {:x?}, the reference expects {:x?} (up to reads of the same register and a write of the value the register already holds)", out.trace, exp.evs)));
             }
             match exp.fault {
                 None if !faults.is_empty() => {
